@@ -15,8 +15,8 @@ from vmon import util
 PROPERTY = "C06"
 LEVEL = "exploration"
 RULE = ("exhaustive enumeration. merge_small_dims: every shape of rank 0..6, dims 1..3 (thorough: + rank 0..5 dims 1..4) "
-        "x limits {1,2,3,4,6,8,16,4096}. Preconditioner/BlockPartitioner: every shape of rank 0..4 dims 1..3 and rank 5 "
-        "dims 1..2 (thorough: rank 0..5 dims 1..3 and rank 0..4 dims 1..4) x merge limits {off,1,2,3,4,6,8,16,4096} x "
+        "x limits {1,2,3,4,6,8,16,4096}. Preconditioner/BlockPartitioner: every shape of rank 0..4 dims 1..3, rank 5 "
+        "dims 1..2 and rank 1..2 dims 1..6 (thorough: rank 0..5 dims 1..3 and rank 0..4 dims 1..4) x merge limits {off,1,2,3,4,6,8,16,4096} x "
         "block 1..B+1 x types ALL/INPUT/OUTPUT, de-duplicated on (transformed shape, block, type). Tearfree blockify: "
         "every accepted shape over dims {2,3,4,6,8}, rank 1..4 (thorough 1..5), <=1024 elements x block {2,3,4}. "
         "Reshaper: shapes rank 0..4 dims 1..4 x merge_dims {2,3,4,6,4096} x block {0,2,3,4}. A case is non-trivial "
@@ -274,7 +274,7 @@ def enumerate_work(B):
   import importlib
   ref_merge = importlib.import_module("vmon.refmodels.shapes").merge_small_dims
   if B <= 3:
-    pshapes = list(all_shapes(3, 4)) + [s for s in all_shapes(2, 5) if len(s) == 5]
+    pshapes = list(all_shapes(3, 4)) + [s for s in all_shapes(2, 5) if len(s) == 5] + [s for s in all_shapes(6, 2) if max(s, default=0) > 3]
   else:
     pshapes = list(all_shapes(3, 5)) + [s for s in all_shapes(4, 4) if 4 in s]
   for shape in pshapes:
